@@ -32,7 +32,7 @@ def run(ctx):
     ctx.floor("C07.3 Server receive functions", n, 3)
     S.rule_incoming_forwards_recv(ctx, "C07.3")
     n = Q.rule_fifo_census(ctx, "C07.4")
-    ctx.floor("C07.4 deque call sites", n, 5)
+    ctx.floor("C07.4 deque call sites", n, 2)   # (at least one place that queues and one that takes; helpers may share the rest)
     S.rule_connection_task_pushes(ctx, "C07.5")
     n = Q.rule_under_lock_effects(ctx, "C07.6")
     ctx.floor("C07.6 calls under the queue lock", n, 8)
@@ -43,6 +43,15 @@ def run(ctx):
     rules_C12.run_rest(c2, PM_, PM_.nxt, PM_.flag)
     n8 = engine.take_over(ctx, c2.obs, lambda o: o.rule == "C12.2" and (o.key.startswith("C12.2|flag-init") or o.key.endswith("|flag-clear-reads")), "C07.8")
     ctx.floor("C07.8 obligations on the parser's gate at construction", n8, 1)
+    # ---- C07.9 a connection that must stay open is kept open, so that the later requests on it are read and delivered: the parser's
+    # keep-alive table (C12.1), taken over
+    c3 = engine.Ctx("C07", "quick", facts, 0)
+    try:
+        rules_C12.keepalive_table(c3)
+        n9 = engine.take_over(ctx, c3.obs, lambda o: o.rule == "C12.1" and o.key.split("|")[-1] in ("table", "atoms", "haystack"), "C07.9")
+        ctx.floor("C07.9 obligations taken from the keep-alive table", n9, 2)
+    except CheckerError as e:
+        ctx.ob("C07.9", "keep-alive-table", "the parser's keep-alive decision could be extracted", False, "client.rs", str(e))
     msg, shapes = S.message_shapes(facts)
     for tr in (T_CLONE, T_COPY):
         ctx.ob("C07.7", "noimpl|%s|%s" % (tr, REQ), "a Request cannot be duplicated, so at most one receiver obtains it", not facts.has_impl(tr, REQ), REQ)
